@@ -224,6 +224,10 @@ func NewCtx() *Ctx {
 }
 
 func (c *Ctx) Polls() int64 { return c.polls.Load() }
+
+// ResetPolls restarts the poll counter (polls made while the VM is constructed
+// are not part of "the run": NewVM deliberately panics on a failed initialiser).
+func (c *Ctx) ResetPolls() { c.polls.Store(0) }
 func (c *Ctx) Fired() bool  { return c.fired }
 
 // Fire cancels the context now (host action).
